@@ -401,13 +401,29 @@ func recvGrammar(e *Env) {
 	}
 	var seenBG []*client.Line
 	for _, v := range sortedKeys(verbs) {
-		s.c.HandleFunc(mixCase(g, v), func(c *client.Conn, l *client.Line) { seen = append(seen, l) })
+		// what a handler is given is its own: some take it apart once they have
+		// looked at it (lower-case the target, strip a prefix, drop a tag); the
+		// other handlers of the event must still receive the message as sent
+		edits := g.Pct(40)
+		s.c.HandleFunc(mixCase(g, v), func(c *client.Conn, l *client.Line) {
+			seen = append(seen, snapshotLine(l))
+			if edits {
+				for i := range l.Args {
+					l.Args[i] = strings.ToLower(l.Args[i]) + "~"
+				}
+				l.Args = append(l.Args, "edited")
+				for _, k := range sortedKeys(l.Tags) {
+					delete(l.Tags, k)
+				}
+				l.Nick, l.Cmd, l.Src = strings.ToLower(l.Nick), "EDITED", ""
+			}
+		})
 		// background handlers get the same lines, in no particular order
 		s.c.HandleBG(mixCase(g, v), client.HandlerFunc(func(c *client.Conn, l *client.Line) {
 			for i := e.S.Choose(3); i > 0; i-- {
 				simrt.Sleep(0)
 			}
-			seenBG = append(seenBG, l)
+			seenBG = append(seenBG, snapshotLine(l))
 		}))
 	}
 	if !s.connect() {
